@@ -169,6 +169,14 @@ func (c20) Run(c *wk.Case) {
 			recs[i].v = 1
 		}
 	}
+	if r.IntN(6) == 0 {
+		// values that need more than 24 significant bits (sums stay exact in float64)
+		for i := range recs {
+			if r.IntN(2) == 0 {
+				recs[i].v = []float64{16777217, 1073741824.5, 25165825, -16777219, 4294967297, 33554433.25}[r.IntN(6)]
+			}
+		}
+	}
 	va := bridge.Variant{LazyLists: r.IntN(2) == 0, MapKind: r.IntN(5)}
 	whole := bridge.ToReal(recList(recs), va)
 	desc := fmt.Sprintf("start=%v size=%v count=%d records=%v", start, size, count, recs)
@@ -260,6 +268,37 @@ func (c20) Run(c *wk.Case) {
 			}
 			c.Count("splittings_checked", 1)
 			return true
+		}
+		// the binnings of the parts are values of their own: collecting them (twice) must leave them what they
+		// were, and give the same total both times
+		if n >= 2 {
+			fk, err := c20Func("[let bs=p.map(q->q.binning(s,z,c,e->e.x,e->e.v)).eval(); let t1=bs.collectBinning(); let t2=bs.collectBinning(); [t1.values, t2.values, bs[0].values, p[0].binning(s,z,c,e->e.x,e->e.v).values, bs.top(1).collectBinning().values]][0]", "p", "s", "z", "c")
+			if err != nil {
+				c.Violation("binning-generate", err.Error(), nil)
+				return
+			}
+			cut := 1 + r.IntN(n-1)
+			parts := []ref.Value{recList(recs[:cut]), recList(recs[cut:])}
+			gk := evalReal(fk, []value.Value{bridge.ToReal(ref.NewList(parts...), va), value.Float(start), value.Float(size), value.Int(count)})
+			if gk.Err != nil {
+				c.Violation("collect-fails", fmt.Sprintf("collecting kept binnings fails: %v (%s)", gk.Err, desc), map[string]any{"case": desc})
+				return
+			}
+			if five, ok := listOf(gk.Val); ok && len(five) == 5 {
+				if ok, d := realEqual(five[0], five[1], false, ""); !ok {
+					c.Violation("collect-twice-differs", fmt.Sprintf("collectBinning over the same binnings gives different totals: %s (%s, cut %d)", d, desc, cut), map[string]any{"case": desc, "diff": d})
+					return
+				}
+				if ok, d := realEqual(five[2], five[3], false, ""); !ok {
+					c.Violation("collect-changes-part", fmt.Sprintf("the binning of the first part changed when it was collected: %s (%s, cut %d)", d, desc, cut), map[string]any{"case": desc, "diff": d})
+					return
+				}
+				if ok, d := realEqual(five[3], five[4], false, ""); !ok {
+					c.Violation("collect-changes-part", fmt.Sprintf("collecting the first part alone differs from its binning: %s (%s, cut %d)", d, desc, cut), map[string]any{"case": desc, "diff": d})
+					return
+				}
+				c.Count("kept_binnings_checked", 1)
+			}
 		}
 		if n <= 8 {
 			for mask := 0; mask < nsplit; mask++ {
